@@ -10,9 +10,10 @@ _l.exec_module(_m)
 reg = _m.load_registry()
 ids = [json.loads(l)["id"] for l in open(os.path.join(V, "properties.jsonl"))]
 na = json.load(open(os.path.join(V, "tools", "na.json")))
+enabled = set(json.load(open(os.path.join(V, "tools", "enabled.json"))))
 checks = []
 for i in ids:
-    if i not in reg:
+    if i not in reg or i not in enabled:
         continue
     s = reg[i]
     hs = [h["entry"] for g in s["groups"] for h in g["harnesses"]]
@@ -40,7 +41,7 @@ m = {
                  "kind_free_text": "bounded symbolic execution of Go SSA (golang.org/x/tools/go/ssa v0.29.0) with SMT back end (z3 -in, push/pop), forking on symbolic branches, decision-prefix DFS over 16 workers; written for this task"}],
     "checks": checks,
     "notes": "see DESIGN.md; known findings in known_findings.json; seeded mutants in seeded/",
-    "not_applicable": [{"property_id": i, "reason": na.get(i, "check not built yet; see DESIGN.md section 6")} for i in ids if i not in reg],
+    "not_applicable": [{"property_id": i, "reason": na.get(i, "check not built yet; see DESIGN.md section 6")} for i in ids if i not in reg or i not in enabled],
 }
 json.dump(m, open(os.path.join(V, "MANIFEST.json"), "w"), indent=1)
 print("checks:", [c["property_id"] for c in checks])
